@@ -33,8 +33,10 @@
 EXTENDS Naturals, Sequences, FiniteSets, TLC, Json
 CONSTANTS Tx, Cap, MaxSeg, Reader,
           WatchPerSegment,   \* TRUE: the design; FALSE: one watch channel shared by all segments
-          SwapInstallsOld    \* TRUE: the design; FALSE: sealed segment handed to the reader pool
+          SwapInstallsOld,   \* TRUE: the design; FALSE: sealed segment handed to the reader pool
                              \*       only after the index lock was released (separate step)
+          ResetOnRoll        \* FALSE: the design; TRUE (with a shared watch): the one channel is
+                             \*       set back to the new segment's start offset at rollover
 W(g) == IF WatchPerSegment THEN g ELSE 0
 
 VARIABLES
@@ -56,6 +58,12 @@ VARIABLES
 
 vars == <<seg, content, synced, pending, liveIdx, liveSeg, closed, pool, watch, waiting,
           acked, failed, wpc, cur, rd>>
+
+\* at / pat of the reader records are bookkeeping for the schedule table only
+ViewNoHist == <<seg, content, synced, pending, liveIdx, liveSeg, closed, pool, watch, waiting, acked,
+                failed, wpc, cur,
+                [r \in Reader |-> [pc |-> rd[r].pc, t |-> rd[r].t, hit |-> rd[r].hit, g |-> rd[r].g,
+                                   pub |-> rd[r].pub]]>>
 
 Segs == 0..MaxSeg
 Written == UNION {{content[g][i] : i \in 1..Len(content[g])} : g \in Segs}
@@ -142,7 +150,8 @@ RollCreate ==
     /\ wpc = "synced"
     /\ seg' = seg + 1
     /\ wpc' = "created"
-    /\ UNCHANGED <<content, synced, pending, liveIdx, liveSeg, closed, pool, watch, waiting,
+    /\ watch' = IF ResetOnRoll /\ ~WatchPerSegment THEN [watch EXCEPT ![0] = 0] ELSE watch
+    /\ UNCHANGED <<content, synced, pending, liveIdx, liveSeg, closed, pool, waiting,
                    acked, failed, cur, rd>>
 
 \* under the live-index write lock: (pending is empty after RollSync) the open indexes are
@@ -255,7 +264,15 @@ EmitSched == \A r \in Reader :
                                   sealed |-> (rd[r].g # rd[r].pat[2]) \/ ~rd[r].hit,
                                   found |-> rd[r].pc = "found"])>>)
 
-(* C20 *)  \* every reply is eventually acknowledged
+(* C20 *)  \* an acknowledgement that has become possible stays possible (no missed notification):
+\* whenever the client task gets to look at the watch, it sees a value that covers its offset
+AckStable == [][\A w \in waiting \cap waiting' :
+                   watch[W(w.g)] >= w.off => watch'[W(w.g)] >= w.off]_vars
+\* writer positions at which a waiter of an earlier segment may still be looking at its watch
+EmitLate == \A w \in waiting :
+    (watch[W(w.g)] >= w.off /\ (w.g < seg \/ wpc = "synced")) =>
+        PrintT(<<"TABLE", ToJson([wpc |-> wpc, seg |-> seg, wseg |-> w.g])>>)
+\* every reply is eventually acknowledged
 EveryAppendCompletes == \A t \in Tx : (\E w \in waiting : w.t = t) ~> (t \in acked)
 
 TypeOK ==
